@@ -133,6 +133,15 @@ def run_shard(rep):
             rep.count('respell_pairs')
             if other != base or hash(other) != hash(base):
                 rep.violation('respelling-unequal', f'{other!r} != {base!r} or hashes differ', wit)
+        pe = valgen.python_equal_respell(rng, {'task': [m, c, p, q]})
+        if pe is not None:
+            other = build(m, c, pe['task'][2], pe['task'][3])
+            rep.count('python_equal_respell_pairs')
+            if other != base:
+                rep.violation('equal-parameters-unequal-tasks', f'{other!r} != {base!r} although the parameters are equal', wit)
+            elif hash(other) != hash(base):
+                rep.violation('equal-tasks-unequal-hash', f'{other!r} == {base!r} but their hashes differ '
+                              f'(a set/dict keyed by tasks treats them as two)', wit)
         for m2, c2 in valgen.TASKS:
             if [m2, c2] != [m, c]:
                 u = build(m2, c2, p, q)
